@@ -658,6 +658,8 @@ func (s *S3Proxy) UploadPartCopy(ctx context.Context, input *s3.UploadPartCopyIn
 		ChecksumCRC64NVME: output.CopyPartResult.ChecksumCRC64NVME,
 		ChecksumSHA1:      output.CopyPartResult.ChecksumSHA1,
 		ChecksumSHA256:    output.CopyPartResult.ChecksumSHA256,
+
+		CopySourceVersionId: backend.GetStringFromPtr(output.CopySourceVersionId),
 	}, nil
 }
 
@@ -993,6 +995,8 @@ func (s *S3Proxy) GetObjectAttributes(ctx context.Context, input *s3.GetObjectAt
 		StorageClass: out.StorageClass,
 		ObjectParts:  &parts,
 		Checksum:     out.Checksum,
+		VersionId:    out.VersionId,
+		DeleteMarker: out.DeleteMarker,
 	}, nil
 }
 
@@ -1209,6 +1213,7 @@ func (s *S3Proxy) ListObjectsV2(ctx context.Context, input *s3.ListObjectsV2Inpu
 		NextContinuationToken: out.NextContinuationToken,
 		Prefix:                out.Prefix,
 		KeyCount:              out.KeyCount,
+		StartAfter:            out.StartAfter,
 	}, nil
 }
 
